@@ -250,17 +250,26 @@ def miri_threads_engine(prop, tier, seed):
     import random
     r = random.Random(seed)  # python's Mersenne twister is specified; seeded -> deterministic plan
     plans = []
+    # every cheap family gets a shared combined instance in some workload of every run: families are dealt
+    # round-robin (seed-dependent rotation), four per ordinary workload
+    rot = seed % len(CHEAP)
+    order = CHEAP[rot:] + CHEAP[:rot]
+    nxt = 0
     for i in range(nwl):
-        fams = r.sample(CHEAP, 3)
-        if i % 2 == 0 and not any(f.startswith("aes") for f in fams):
-            fams[0] = r.choice(["aes128", "aes192", "aes256"])
         variants = "-"
         if i % 4 == 1:
             # the default Kuznyechik build (SSE2 backend, fused tables) costs ~10 s of interpreter start-up:
             # give it its own workloads, shared-instance mode
-            fams = ["kuznyechik"] + fams[:1]
+            fams = ["kuznyechik"] + [order[(nxt + k) % len(order)] for k in range(2)]
+            nxt += 2
             variants = "kuz,kuz_z"
-        plans.append(dict(wl_seed=seed * 1000 + i, nthreads=r.choice([2, 3, 3, 4]), nops=r.choice([3, 4, 5]),
+        else:
+            fams = [order[(nxt + k) % len(order)] for k in range(4)]
+            nxt += 4
+            if i % 2 == 0 and not any(f.startswith("aes") for f in fams):
+                # first-use workloads race the detection cache: they need a type that goes through it
+                fams.append(["aes128", "aes192", "aes256"][(i // 2) % 3])
+        plans.append(dict(wl_seed=seed * 1000 + i, nthreads=r.choice([2, 3, 3, 4]), nops=r.choice([2, 3]),
                           mode="firstuse" if i % 2 == 0 else "shared", fams=fams, miri_seeds=(i * per, i * per + per),
                           rate=r.choice([0.003, 0.01, 0.03, 0.1]), variants=variants))
     t0 = time.time()
